@@ -55,7 +55,7 @@ func runC02(c *Ctx) {
 	for _, r := range rows {
 		if !r.used {
 			c.SetConfig("tables")
-			c.Stale("fieldwidth:"+r.typ+":"+r.loc)
+			c.Stale("fieldwidth:" + r.typ + ":" + r.loc)
 		}
 	}
 }
